@@ -1,16 +1,29 @@
 #!/usr/bin/env python3
-"""Fail-closed translator: votelib/component/{divisor,quota,pairwin_scorer}.py -> Gallina.
+"""Fail-closed translator: arithmetic and expression-level code of votelib -> Gallina.
 
 usage: py2v.py <repo> <outdir>
-Writes <outdir>/Divisor.v, <outdir>/Quota.v, <outdir>/Pairwin.v and <outdir>/STATUS.json.
-Accepted subset (anything else raises Unsupported and the unit is marked failed):
+Writes <outdir>/{Divisor,Quota,Pairwin,Rankscore,Threshold,Approval,Openlist}.v and <outdir>/STATUS.json
+(per unit: status ok | partial | failed, per definition ok | "unsupported: <why> at line N: <ast node>").
+
+1. Untyped function translator (component/divisor.py, component/quota.py).  Accepted subset (anything else raises
+   Unsupported and the unit is marked failed):
   def f(a: int, b: int) -> T:  [docstring]  body
   body ::= return e | if c: body else: body
   e ::= int literal | name | e (+|-|*) e | e ** name | Fraction(e, e) | int(e) | math.ceil(e) | round(e)
       | f(e, ..) for an already translated f | e if c else e
   c ::= e (<|<=|>|>=|==) e | e.limit_denominator(2) == e
   closure rule: def outer(fx: Callable, coef = Decimal('..')): [isinstance-normalisation] def inner(order): .. ; return inner
-All numbers are rationals (Q); parameters annotated int are Z and injected.
+  All numbers are rationals (Q); parameters annotated int are Z and injected.
+2. Pairwise win scorers (component/pairwin_scorer.py): dict comprehensions over counts.items().
+3. Rank scorers (component/rankscore.py): the per-rank expression of scores() for Dowdall / Geometric / ModifiedBorda / FixedTop.
+4. Typed method translator (evaluate/threshold.py, evaluate/approval.py QuotaSelector, evaluate/openlist.py jump threshold
+   and jump test, component/rankscore.py select_padded / Borda / SequenceBased): see the comment above class TX for the
+   subset and TYPED_JOBS / RANK_TYPED for what is extracted from which method (whole body, the condition of a comprehension,
+   a loop's test, the statements up to a local).  Parameters of a generated definition are the attributes and arguments
+   the code reads, with declared types; locals and loop variables are bound by position, so renaming them changes nothing.
+The reading of the Python primitives is Prelude/PyNum.v and Prelude/PyList.v (trusted base).
+tools/gentie_selftest.py replays source edits (equivalent rewrites, semantic changes, untranslatable forms) against the
+translator and the Props/GenTie_*.v proofs.
 """
 import ast, sys, os, json, re
 from fractions import Fraction
